@@ -19,7 +19,7 @@ ASSUMPTIONS = ["eval namespace maps the constructors and the text \"<class 'int'
                "default_factory) back to the type",
                "string leaves avoid the literal text '... +' so abbreviation markers can be counted"]
 REQUIRED = ["mon.after_interrupted_call", "mon.pretty_renderable", "mon.node_rerendered", "mon.eval_back", "mon.equals_repr_when_fits", "mon.layout", "mon.cycle", "mon.max_length",
-            "mon.max_string"]
+            "mon.max_string", "mon.width_at_the_edge_of_fitting"]
 MIN_NONTRIVIAL = {"quick": 3000, "thorough": 150000}
 
 NS = {"deque": deque, "Counter": Counter, "defaultdict": defaultdict, "array": array, "frozenset": frozenset,
